@@ -509,6 +509,21 @@ func classify(id string, u *Unit, o outcome, known []Finding) (viols []violation
 		}
 		viols = append(viols, violation{sig, m[2], rp})
 	}
+	// race detector reports (units built with -race): one signature per pair of vivid functions
+	if u.Race {
+		for _, rs := range raceSignatures(o.out) {
+			sig := id + "/data-race|" + rs
+			if seen[sig] {
+				continue
+			}
+			seen[sig] = true
+			if isKnown(known, id, sig) != nil {
+				continue
+			}
+			rp := saveReplay(id, o.unit, "race", "", []byte(o.out), ".log")
+			viols = append(viols, violation{sig, "the race detector reported unsynchronised accesses by these two functions (full report in the replay log)", rp})
+		}
+	}
 	if len(viols) > 0 || len(seen) > 0 {
 		return
 	}
@@ -541,6 +556,51 @@ func classify(id string, u *Unit, o outcome, known []Finding) (viols []violation
 	}
 	inconclusive = append(inconclusive, fmt.Sprintf("unit %s shard %d exited with %d: %s", o.unit, o.shard, o.exit, firstLines(tail(o.out, 30), 30)))
 	return
+}
+
+var raceFrame = regexp.MustCompile(`(?m)^  (github\.com/kercylan98/vivid/[^\s(]+(?:\([^)]*\))?[^\s(]*)\(`)
+
+// raceSignatures reduces every "WARNING: DATA RACE" report to the unordered pair of the first
+// vivid (non-harness) functions on the two access stacks.
+func raceSignatures(out string) []string {
+	var sigs []string
+	seen := map[string]bool{}
+	for _, rep := range strings.Split(out, "WARNING: DATA RACE")[1:] {
+		if i := strings.Index(rep, "=================="); i >= 0 {
+			rep = rep[:i]
+		}
+		// the two access stacks are the first two blocks
+		blocks := strings.Split(rep, "\n\n")
+		var firsts []string
+		for _, b := range blocks {
+			if len(firsts) == 2 {
+				break
+			}
+			if !(strings.Contains(b, " at 0x") || strings.Contains(b, "Previous ")) {
+				continue
+			}
+			f := "?"
+			for _, m := range raceFrame.FindAllStringSubmatch(b, -1) {
+				fn := strings.TrimPrefix(m[1], "github.com/kercylan98/vivid/")
+				if strings.HasPrefix(fn, "verif/") {
+					continue
+				}
+				if i := strings.Index(fn, "["); i > 0 { // generic instantiation suffix
+					fn = fn[:i]
+				}
+				f = fn
+				break
+			}
+			firsts = append(firsts, f)
+		}
+		sort.Strings(firsts)
+		sig := strings.Join(firsts, "×")
+		if !seen[sig] {
+			seen[sig] = true
+			sigs = append(sigs, sig)
+		}
+	}
+	return sigs
 }
 
 func tail(s string, n int) string {
